@@ -3,6 +3,7 @@ package main
 import (
 	"fmt"
 	"go/token"
+	"go/types"
 	"sort"
 	"strings"
 
@@ -116,5 +117,103 @@ func checkContradictoryClassification(p *Prog, res *Result, rule string) {
 	}
 	if n == 0 {
 		res.und(rule, "pkg/backend: classification tests", "-", "none found")
+	}
+}
+
+// checkSentinelIdentity: the write paths dispatch on error classes with errors.Is (failed condition -> answer
+// "not succeeded"; unknown outcome -> repair; anything else -> error). That only works while every package-level
+// error variable of the repository is a class of its own: the initializer of none of them wraps (fmt.Errorf %w,
+// errors.Wrap, WithMessage ..) another error variable - otherwise errors.Is files the wrapper under the class of
+// what it wraps (a 'revision drift back' would be answered as a failed compare).
+func checkSentinelIdentity(p *Prog, res *Result, rule string) {
+	isErrGlobal := func(v ssa.Value) *ssa.Global {
+		g := globalLoad(v)
+		if g == nil || g.Pkg == nil || !strings.HasPrefix(g.Pkg.Pkg.Path(), modPath) {
+			return nil
+		}
+		if pt, ok := g.Type().Underlying().(*types.Pointer); ok && isErrorType(pt.Elem()) {
+			return g
+		}
+		return nil
+	}
+	n := 0
+	var pkgs []*ssa.Package
+	for _, pk := range p.SSA.AllPackages() {
+		if pk.Pkg != nil && strings.HasPrefix(pk.Pkg.Path(), modPath) && !strings.Contains(pk.Pkg.Path(), "/mock") {
+			pkgs = append(pkgs, pk)
+		}
+	}
+	sort.Slice(pkgs, func(i, j int) bool { return pkgs[i].Pkg.Path() < pkgs[j].Pkg.Path() })
+	for _, pk := range pkgs {
+		init := pk.Func("init")
+		if init == nil {
+			continue
+		}
+		for _, b := range init.Blocks {
+			for _, ins := range b.Instrs {
+				st, ok := ins.(*ssa.Store)
+				if !ok {
+					continue
+				}
+				g, ok := st.Addr.(*ssa.Global)
+				if !ok {
+					continue
+				}
+				if pt, ok := g.Type().Underlying().(*types.Pointer); !ok || !isErrorType(pt.Elem()) {
+					continue
+				}
+				n++
+				construct := fmt.Sprintf("%s.%s: an error class of its own", strings.TrimPrefix(pk.Pkg.Path(), modPath+"/"), g.Name())
+				var wrapped *ssa.Global
+				seen := map[ssa.Value]bool{}
+				var walk func(v ssa.Value, d int)
+				walk = func(v ssa.Value, d int) {
+					if v == nil || seen[v] || d > 8 {
+						return
+					}
+					seen[v] = true
+					if og := isErrGlobal(v); og != nil && og != g {
+						wrapped = og
+						return
+					}
+					switch x := resolve(v).(type) {
+					case *ssa.MakeInterface:
+						walk(x.X, d+1)
+					case *ssa.Call:
+						for _, a := range x.Common().Args {
+							walk(a, d+1)
+						}
+					case *ssa.Slice:
+						walk(x.X, d+1)
+					case *ssa.Alloc:
+						for _, ref := range *x.Referrers() {
+							switch y := ref.(type) {
+							case *ssa.IndexAddr:
+								for _, r2 := range *y.Referrers() {
+									if s2, ok := r2.(*ssa.Store); ok && s2.Addr == ssa.Value(y) {
+										walk(s2.Val, d+1)
+									}
+								}
+							case *ssa.FieldAddr:
+								for _, r2 := range *y.Referrers() {
+									if s2, ok := r2.(*ssa.Store); ok && s2.Addr == ssa.Value(y) {
+										walk(s2.Val, d+1)
+									}
+								}
+							}
+						}
+					}
+				}
+				walk(st.Val, 0)
+				if wrapped != nil {
+					res.bad(rule, construct, p.pos(st.Pos()), "the error variable is built around "+wrapped.Name()+": errors.Is(err, "+wrapped.Name()+") now holds for it too, so the dispatch on error classes files this condition under the other class (e.g. an error that must reach the client as an error is answered as a failed compare with Succeeded=false)")
+				} else {
+					res.ok(rule, construct, p.pos(st.Pos()), "initialised without reference to another error variable")
+				}
+			}
+		}
+	}
+	if n == 0 {
+		res.und(rule, "package-level error variables", "-", "none found")
 	}
 }
